@@ -1569,17 +1569,21 @@ Proof. induction s as [|c s IH]; cbn; [reflexivity|]. destruct (ascii_dec c c); 
 Lemma token_eqb_refl t : token_eqb t t = true.
 Proof. now apply token_eqb_eq. Qed.
 
-(** The head of a normal form is never an empty piece of character data, and
-    never character data followed by character data. *)
+(** A normal form holds no processing instruction and no directive, its
+    pieces of character data are not empty and never adjacent. *)
+Definition sep (x : token) : Prop :=
+  match x with TStart _ _ | TEnd _ | TComment _ => True | _ => False end.
+
 Inductive nf : list token -> Prop :=
 | nf_nil : nf []
 | nf_text s r : str_empty s = false -> nf r -> (forall s' r', r <> TText s' :: r') -> nf (TText s :: r)
-| nf_other x r : (forall s, x <> TText s) -> nf r -> nf (x :: r).
+| nf_other x r : sep x -> nf r -> nf (x :: r).
 
 Lemma norm_stream_nf l : nf (norm_stream l).
 Proof.
   induction l as [|x r IH]; [constructor|].
-  destruct x as [n a|n|s|s|tg s|s]; cbn [norm_stream]; try (apply nf_other; [intros ?; discriminate|exact IH]).
+  destruct x as [n a|n|s|s|tg s|s]; cbn [norm_stream];
+    try (apply nf_other; [exact I|exact IH]); try exact IH.
   destruct (norm_stream r) as [|y r'] eqn:E.
   - destruct (str_empty s) eqn:Es; [constructor|]. apply nf_text; [exact Es|constructor|intros; discriminate].
   - destruct y as [n a|n|s'|s'|tg s'|s'];
@@ -1587,7 +1591,7 @@ Proof.
            apply nf_text; [exact Es|exact IH|intros; discriminate]).
     inversion IH as [|s0 r0 He Hr Hn|x0 r0 Hx Hr]; subst.
     + apply nf_text; [|exact Hr|exact Hn]. rewrite str_empty_append, He. apply Bool.andb_false_r.
-    + exfalso. now apply (Hx s').
+    + destruct Hx.
 Qed.
 
 Lemma norm_stream_of_nf l : nf l -> (forall n a, In (TStart n a) l -> strip_decls a = a) -> norm_stream l = l.
@@ -1597,15 +1601,15 @@ Proof.
     destruct r as [|y r']; [now rewrite He|].
     destruct y; try (now rewrite He). exfalso. now apply (Hn s0 r').
   - assert (IHr : norm_stream r = r) by (apply IH; intros n a Hi; apply (Hd n a); now right).
-    destruct x as [n a|n|s|s|tg s|s]; cbn [norm_stream]; rewrite ?IHr; try reflexivity.
-    + rewrite (Hd n a); [reflexivity|now left].
-    + exfalso. now apply (Hx s).
+    destruct x as [n a|n|s|s|tg s|s]; cbn [norm_stream]; rewrite ?IHr; try reflexivity; try destruct Hx.
+    rewrite (Hd n a); [reflexivity|now left].
 Qed.
 
 Lemma norm_stream_starts l n a : In (TStart n a) (norm_stream l) -> strip_decls a = a.
 Proof.
   revert n a. induction l as [|x r IH]; intros n a H; [destruct H|].
   destruct x as [m b|m|s|s|tg s|s]; cbn [norm_stream] in H;
+    try exact (IH n a H);
     try (destruct H as [H|H]; [discriminate|exact (IH n a H)]).
   - destruct H as [H|H]; [|exact (IH n a H)]. injection H as <- <-. apply strip_decls_idem.
   - destruct (norm_stream r) as [|y r'] eqn:E.
@@ -1680,6 +1684,7 @@ Proof.
   induction l as [|x r IH]; intros k; [now destruct k|].
   destruct k as [|k]; [reflexivity|]. cbn [firstn]. specialize (IH k).
   destruct x as [n a|n|s|s|tg s|s]; cbn [norm_stream];
+    try exact IH;
     try (rewrite tprefix_cons_other by (intros ?; discriminate); exact IH).
   pose proof (norm_stream_nf (firstn k r)) as NA. pose proof (norm_stream_nf r) as NB.
   pose proof (tprefix_nf_head _ _ IH) as Hh.
@@ -1742,13 +1747,13 @@ Qed.
 (** ** The tree normal form and the stream normal form are the same thing *)
 
 Lemma norm_stream_app_other l x r :
-  (forall s, x <> TText s) -> norm_stream (l ++ x :: r) = norm_stream l ++ norm_stream (x :: r).
+  sep x -> norm_stream (l ++ x :: r) = norm_stream l ++ norm_stream (x :: r).
 Proof.
   intros Hx. induction l as [|y l' IH]; [reflexivity|]. cbn [app].
   destruct y as [n a|n|s|s|tg s|s]; cbn [norm_stream app]; rewrite IH; try reflexivity.
   destruct (norm_stream l') as [|z l''] eqn:E.
-  - cbn [app]. destruct x as [n a|n|s0|s0|tg s0|s0]; cbn [norm_stream];
-      try (destruct (str_empty s); reflexivity). exfalso. now apply (Hx s0).
+  - cbn [app]. destruct x as [n a|n|s0|s0|tg s0|s0]; try destruct Hx; cbn [norm_stream];
+      destruct (str_empty s); reflexivity.
   - cbn [app]. destruct z; try (destruct (str_empty s); reflexivity).
 Qed.
 
@@ -1764,7 +1769,7 @@ Proof.
     try (now rewrite IH).
   - rewrite IH. rewrite <- app_assoc. cbn [app]. f_equal. rewrite Ht.
     rewrite <- (app_assoc _ [TEnd n]). cbn [app].
-    rewrite norm_stream_app_other by (intros ?; discriminate). reflexivity.
+    rewrite norm_stream_app_other by exact I. reflexivity.
   - rewrite <- IH. destruct (merge_text (map norm r)) as [|y r'] eqn:E; cbn [flat_map].
     + destruct (str_empty s); reflexivity.
     + destruct y as [n a cs|s'|s'|tg s'|s']; cbn [flat_map tokens app];
@@ -1779,8 +1784,20 @@ Proof.
 Qed.
 
 (** "Same element tree" is equality of the streams in normal form: namespace
-    declarations and the cutting of character data are the only things it
-    forgets. *)
+    declarations, processing instructions, directives and the cutting of
+    character data are the only things it forgets. *)
 Lemma same_forest_norm_stream f g :
   same_forest f g = list_eqb token_eqb (norm_stream (forest_tokens f)) (norm_stream (forest_tokens g)).
 Proof. unfold same_forest. now rewrite !norm_forest_tokens. Qed.
+
+(** Processing instructions and directives are not seen by the normal form,
+    wherever they stand (also between two pieces of character data, which then
+    are one run). *)
+Lemma norm_stream_drop l1 x l2 :
+  (match x with TProcInst _ _ | TDirective _ => True | _ => False end) ->
+  norm_stream (l1 ++ x :: l2) = norm_stream (l1 ++ l2).
+Proof.
+  intros Hx. induction l1 as [|y r IH].
+  - destruct x; try destruct Hx; reflexivity.
+  - cbn [app]. destruct y as [n a|n|s|s|tg s|s]; cbn [norm_stream]; now rewrite IH.
+Qed.
